@@ -254,9 +254,10 @@ class C03(Prop):
     title = 'Legacy signature hash equals the consensus algorithm for every hash type'
     lean_targets = ['BtcVerif.Props.C03']
     table_groups = []
-    theorems_todo = ['BtcVerif.C03.' + t for t in (
-        'findAndDelete_codesep', 'findAndDelete_ops', 'parses_iff', 'raw_eq_spec', 'raw_eq_spec_wf', 'err_iff',
-        'wrapper_raises_iff', 'wrapper_eq_spec', 'isWitnessScriptPubKey_spec', 'raw_no_pyexc')]
+    theorems = ['BtcVerif.C03.' + t for t in (
+        'parses_iff', 'findAndDelete_codesep', 'findAndDelete_ops', 'findAndDelete_invalid', 'raw_eq_spec',
+        'raw_eq_spec_int32', 'raw_eq_spec_wf', 'err_iff', 'raw_no_pyexc', 'isWitnessScriptPubKey_spec',
+        'wrapper_eq_spec', 'wrapper_raises_iff')]
     anchors = [('bitcoin/core/script.py', 'FindAndDelete'),
                ('bitcoin/core/script.py', 'RawSignatureHash'),
                ('bitcoin/core/script.py', 'SignatureHash'),
